@@ -9,8 +9,8 @@
 
 enum { SK_TERM, SK_NT, SK_ERR };
 #define NILTR (-1)
-#define G_MAXSYM 30
-#define G_MAXRULE 18
+#define G_MAXSYM 56
+#define G_MAXRULE 30
 #define G_MAXRHS 5
 #define G_MAXTR 4
 
@@ -403,12 +403,51 @@ static const struct gram catalogue[] = {
     { { 1, 1, { 0 }, NULL, 0, 1, { 0 } },
       { 1, 2, { 0, 1 }, "r", 1, 2, { 0, 1 } },
       { 1, 3, { 0, 0, 0 }, "t", 1, 3, { 0, 1, 2 } } } },
+  /* 44: G45 no terminals at all:  S : T T # s(0 1) ; T : # t */
+  { "G45", 2, { N ("S"), N ("T") }, 2,
+    { { 0, 2, { 1, 1 }, "s", 1, 2, { 0, 1 } },
+      { 1, 0, { 0 }, "t", 1, 0, { 0 } } } },
+  /* 45: G46 a terminal with code 0:  S : b S # c(0 1) | z S # d(0 1) | b   (z has code 0, b code 1) */
+  { "G46", 3, { T ("z", 0), T ("b", 1), N ("S") }, 3,
+    { { 2, 2, { 1, 2 }, "c", 1, 2, { 0, 1 } },
+      { 2, 2, { 0, 2 }, "d", 1, 2, { 0, 1 } },
+      { 2, 1, { 1 }, NULL, 0, 1, { 0 } } } },
+  /* 46: G47 twenty-four bracket pairs (a..n A..N open, o..z O..Z close): more than twenty dynamic-lookahead contexts */
+  { "G47", 53, { T ("i", 'i'), T ("j", 'j'), T ("a", 'a'), T ("b", 'b'), T ("c", 'c'), T ("d", 'd'), T ("e", 'e'), T ("f", 'f'), T ("g", 'g'), T ("h", 'h'), T ("k", 'k'), T ("l", 'l'), T ("m", 'm'), T ("n", 'n'), T ("A", 'A'), T ("B", 'B'), T ("C", 'C'), T ("D", 'D'), T ("E", 'E'), T ("F", 'F'), T ("G", 'G'), T ("H", 'H'), T ("K", 'K'), T ("L", 'L'), T ("M", 'M'), T ("N", 'N'), T ("o", 'o'), T ("p", 'p'), T ("q", 'q'), T ("r", 'r'), T ("s", 's'), T ("t", 't'), T ("u", 'u'), T ("v", 'v'), T ("w", 'w'), T ("x", 'x'), T ("y", 'y'), T ("z", 'z'), T ("O", 'O'), T ("P", 'P'), T ("Q", 'Q'), T ("R", 'R'), T ("S", 'S'), T ("T", 'T'), T ("U", 'U'), T ("V", 'V'), T ("W", 'W'), T ("X", 'X'), T ("Y", 'Y'), T ("Z", 'Z'), N ("S0"), N ("A0"), N ("X0") }, 28,
+    { { 50, 1, { 51 }, NULL, 0, 1, { 0 } },
+      { 50, 2, { 50, 51 }, "s", 1, 2, { 0, 1 } },
+      { 51, 3, { 2, 52, 26 }, "a", 1, 1, { 1 } },
+      { 51, 3, { 3, 52, 27 }, "a", 1, 1, { 1 } },
+      { 51, 3, { 4, 52, 28 }, "a", 1, 1, { 1 } },
+      { 51, 3, { 5, 52, 29 }, "a", 1, 1, { 1 } },
+      { 51, 3, { 6, 52, 30 }, "a", 1, 1, { 1 } },
+      { 51, 3, { 7, 52, 31 }, "a", 1, 1, { 1 } },
+      { 51, 3, { 8, 52, 32 }, "a", 1, 1, { 1 } },
+      { 51, 3, { 9, 52, 33 }, "a", 1, 1, { 1 } },
+      { 51, 3, { 10, 52, 34 }, "a", 1, 1, { 1 } },
+      { 51, 3, { 11, 52, 35 }, "a", 1, 1, { 1 } },
+      { 51, 3, { 12, 52, 36 }, "a", 1, 1, { 1 } },
+      { 51, 3, { 13, 52, 37 }, "a", 1, 1, { 1 } },
+      { 51, 3, { 14, 52, 38 }, "a", 1, 1, { 1 } },
+      { 51, 3, { 15, 52, 39 }, "a", 1, 1, { 1 } },
+      { 51, 3, { 16, 52, 40 }, "a", 1, 1, { 1 } },
+      { 51, 3, { 17, 52, 41 }, "a", 1, 1, { 1 } },
+      { 51, 3, { 18, 52, 42 }, "a", 1, 1, { 1 } },
+      { 51, 3, { 19, 52, 43 }, "a", 1, 1, { 1 } },
+      { 51, 3, { 20, 52, 44 }, "a", 1, 1, { 1 } },
+      { 51, 3, { 21, 52, 45 }, "a", 1, 1, { 1 } },
+      { 51, 3, { 22, 52, 46 }, "a", 1, 1, { 1 } },
+      { 51, 3, { 23, 52, 47 }, "a", 1, 1, { 1 } },
+      { 51, 3, { 24, 52, 48 }, "a", 1, 1, { 1 } },
+      { 51, 3, { 25, 52, 49 }, "a", 1, 1, { 1 } },
+      { 52, 1, { 0 }, NULL, 0, 1, { 0 } },
+      { 52, 2, { 0, 1 }, "ij", 1, 2, { 0, 1 } } } },
 };
 #define N_CATALOGUE ((int) (sizeof (catalogue) / sizeof (catalogue[0])))
 
 /* ---- the grammar currently fed to yaep (a private, mutable copy) */
 static struct gram G;
-static int g_term_i, g_rule_i;
+static int g_term_i, g_rule_i, g_pad, g_pad_i;
 static const char *g_rhsbuf[G_MAXRHS + 1];
 static int g_trbuf[G_MAXTR + 1];
 
@@ -425,11 +464,26 @@ static int g_has_error_rules (void)
   return 0;
 }
 
-static void g_rewind (void) { g_term_i = g_rule_i = 0; }
+static void g_rewind (void) { g_term_i = g_rule_i = 0; g_pad_i = 0; }
+/* g_pad > 0: that many unused terminals (codes 3000..) are declared after the grammar's own terminals, g_pad < 0: before
+   them - terminal sets become wider than one machine word and the grammar's terminals lie in the first or the last word */
+static char g_padname[8];
+static const char *g_pad_term (int *code)
+{
+  int k = g_pad_i++;
+  g_padname[0] = '_'; g_padname[1] = (char) ('a' + k / 26); g_padname[2] = (char) ('a' + k % 26); g_padname[3] = 0;
+  *code = 3000 + k;
+  return g_padname;
+}
 static const char *g_read_terminal (int *code)
 {
+  if (g_pad < 0 && g_pad_i < -g_pad) return g_pad_term (code);
   while (g_term_i < G.nsym && G.sym[g_term_i].kind != SK_TERM) g_term_i++;
-  if (g_term_i >= G.nsym) return NULL;
+  if (g_term_i >= G.nsym)
+    {
+      if (g_pad > 0 && g_pad_i < g_pad) return g_pad_term (code);
+      return NULL;
+    }
   *code = G.sym[g_term_i].code;
   return G.sym[g_term_i++].name;
 }
